@@ -65,8 +65,8 @@ CHECKS.update({
          "§5 ActorSys / C19"),
  "C04": ("model_checking",
          "TLA+ spec of one Ask (Future.close / PipeTo / Result and the registration in Context.ask) at hook granularity, TLC: all interleavings of repliers, timer, asker death, PipeTo and Result callers (safety + termination); TLC behaviours replayed on a real Ask through hooks in future.go/context.go; second TLA+ spec Registry (all Asks of one asker: creation, registration, compensation, timers, death scan, restart turned into termination; TLC exhaustive, two refuted variants); ungated asker-life scenarios; traces validated by TLC against AskMon and AskLifeMon",
-         "Every interleaving of three completer threads, one or two PipeTo callers and one or two Result callers with the three steps of ask() is explored by TLC for: single completion, every waiter/forwarder sees that completion's value exactly once, no registration left, everybody terminates. Simulated behaviours and random thread sets (time-outs 0.1-20 ms) are replayed on a real future created by the real Context.ask with a real timer and real forwarder actors; AskMon judges values, exactly-once forwarding, own-reply-only, time-out not early, waiters released and registry emptiness. Registry.tla is checked for: a dead asker leaves no pending Ask, a completed future is not registered, an open future is registered; on the code an asker makes 2-5 Asks with time-outs from 1 ns to seconds (with a delay injected before registration) and then ends in one of six ways (kill, poison kill, failure+Stop, failure+Restart with a kill during or after the restart, parent's termination); AskLifeMon requires every Ask to be complete 150 ms after the asker's termination, no registration left, own reply only, time-out not early, death only once the asker is being ended.",
-         "Critical sections under Future.mu and futureLock are atomic; real timer (one-sided time check); the gated scenarios have one Ask each; several Asks of one asker are covered by Registry.tla and the ungated asker-life scenarios (real time: 150 ms grace).",
+         "Every interleaving of three completer threads, one or two PipeTo callers and one or two Result callers with the three steps of ask() is explored by TLC for: single completion, every waiter/forwarder sees that completion's value exactly once, no registration left, everybody terminates. Simulated behaviours and random thread sets (time-outs 0.1-20 ms) are replayed on a real future created by the real Context.ask with a real timer and real forwarder actors; AskMon judges values, exactly-once forwarding, own-reply-only, time-out not early, waiters released and registry emptiness. Registry.tla is checked for: a dead asker leaves no pending Ask, a completed future is not registered, an open future is registered; on the code an asker makes 2-5 Asks with time-outs from 1 ns to seconds (with a delay injected before registration) and then ends in one of six ways (kill, poison kill, failure+Stop, failure+Restart with a kill during or after the restart, parent's termination); AskLifeMon requires every Ask to be complete at the latest 1.5 s after the asker's termination, no registration left, own reply only, time-out not early, death only once the asker is being ended.",
+         "Critical sections under Future.mu and futureLock are atomic; real timer (one-sided time check); the gated scenarios have one Ask each; several Asks of one asker are covered by Registry.tla and the ungated asker-life scenarios (real time: 1.5 s grace against 4 s time-outs).",
          "§5 C04"),
  "C11": ("model_checking",
          "TLA+ spec of the receiving side's framing (byte stream in arbitrary segments -> one frame per turn through a buffered reader), TLC: all segmentations over chosen cut sets (safety + all delivered); TLC-simulated write/read behaviours replayed on the real connection actor over a scripted net.Conn; end-to-end loopback runs; traces validated by TLC against DeliveryMon",
